@@ -797,6 +797,37 @@ static void run_needed(int which)
                     emit_query(&x, perm, s, sp, emitted++);
                 }
             }
+            /* the same fragment named more than once - repeated inside a list, or listed both as to-rebuild and as excluded
+             * ("do not offer me the one I am rebuilding").  C06 quantifies over disjoint lists, so there such a query is judged
+             * only by "an error rather than a wrong list" (flat-XOR counts list entries and refuses some of them); C19 quantifies
+             * over erasure *sets* |E| <= m, and the set named here is within tolerance, so the ISA-L adapters must answer it */
+            int nrep = MO.thorough ? 600 : 80;
+            for (int b = 0; b < nrep; b++) {
+                int s = 1 + (int)rng_below(&r, (uint32_t)tol);
+                int perm[32]; for (int i = 0; i < n; i++) perm[i] = i;
+                rng_shuffle(&r, perm, n);
+                int nr0 = 1 + (int)rng_below(&r, (uint32_t)s), nx0 = s - nr0;
+                int R[40], X[40], nr = 0, nx = 0;
+                for (int i = 0; i < nr0; i++) R[nr++] = perm[i];
+                for (int i = 0; i < nx0; i++) X[nx++] = perm[nr0 + i];
+                int how = (int)rng_below(&r, 4);
+                if (how == 0 || how == 3) { int extra = 1 + (int)rng_below(&r, 3); for (int i = 0; i < extra && nx < 36; i++) X[nx++] = R[rng_below(&r, (uint32_t)nr0)]; }        /* requested also excluded */
+                if (how == 1 || how == 3) { int extra = 1 + (int)rng_below(&r, (uint32_t)(c.m + 1)); for (int i = 0; i < extra && nx < 36 && nx > 0; i++) X[nx++] = X[rng_below(&r, (uint32_t)nx)]; }   /* excluded repeated */
+                if (how == 2) { int extra = 1 + (int)rng_below(&r, 3); for (int i = 0; i < extra && nr < 36; i++) R[nr++] = R[rng_below(&r, (uint32_t)nr)]; }               /* requested repeated */
+                if (nr == nr0 && nx == nx0) continue;
+                /* never more than k+m entries in all: what a list longer than the stripe means is outside every property
+                 * (flat-XOR copies both lists into k+m+1 slots; see DESIGN 8) */
+                while (nr + nx > n && nx > 0) nx--;
+                while (nr + nx > n && nr > 1) nr--;
+                rng_shuffle(&r, X, nx);
+                char rs[200] = "", xs[200] = ""; char *q = rs; q += sprintf(q, "["); for (int i = 0; i < nr; i++) q += sprintf(q, "%s%d", i ? "," : "", R[i]); sprintf(q, "]");
+                q = xs; q += sprintf(q, "["); for (int i = 0; i < nx; i++) q += sprintf(q, "%s%d", i ? "," : "", X[i]); sprintf(q, "]");
+                if (mon_case("%s|repeated|R=%s|X=%s", x.ck, rs, xs)) {
+                    check_needed(&x, R, nr, X, nx, which == 2);
+                    mon_count("queries_with_repeated_or_overlapping_indexes", 1);
+                    mon_end();
+                }
+            }
             /* beyond tolerance: an error or a list that still satisfies every clause */
             int nb = MO.thorough ? 400 : 60;
             for (int b = 0; b < nb; b++) {
@@ -889,6 +920,17 @@ static void run_force(int which)
                 int idx[PRES_MAX];
                 int cnt = pres_indexes(p, S, n, &r, idx);
                 pres_t pr; pres_build(&pr, s, idx, cnt, pres_almode(p), 0, &r);
+                /* in half of the cases every presented fragment is validated while it is still intact (those that will be
+                 * damaged last), and damaged in place afterwards: a verdict must be about the bytes as they are at the call */
+                if (e % 2 == 0) {
+                    for (int pass = 0; pass < 2; pass++) for (int i = 0; i < cnt; i++) {
+                        int will = 0; for (int b = 0; b < nb; b++) if (idx[i] == sl[b]) will = 1;
+                        if (will != pass) continue;
+                        fragment_metadata_t md; int bad = is_invalid_fragment(x.desc, pr.ptr[i]); int mr = liberasurecode_get_fragment_metadata(pr.ptr[i], &md);
+                        if (bad || mr != 0 || md.chksum_mismatch) { mon_viol("C20", "pristine-fragment-invalid", "fragment %d as encode wrote it does not validate (is_invalid=%d, query rc=%d, mismatch=%d)", idx[i], bad, mr, md.chksum_mismatch); break; }
+                    }
+                    mon_count("cases_validated_before_damage_in_place", 1);
+                }
                 /* apply damage to every presented copy of a damaged index */
                 for (int i = 0; i < cnt; i++)
                     for (int b = 0; b < nb; b++)
@@ -983,6 +1025,10 @@ static void run_canonical(void)
                     if ((uint32_t)g[r * k + j] != want) { mon_viol("C04", "generator-entry-differs", "row %d col %d: library %d, closed form L_j(r)/L_j(k) = %u", r, j, g[r * k + j], want); bad = 1; break; }
                 }
                 mon_count("generators_compared", 1);
+                /* asked again for the same shape (and once for another shape in between): the same matrix */
+                { int *g2 = mk(k, m), *g3 = mk(k > 1 ? k - 1 : k + 1, m), *g4 = mk(k, m);
+                  if (!g2 || !g4 || memcmp(g, g2, sizeof(int) * (size_t)(n * k)) || memcmp(g, g4, sizeof(int) * (size_t)(n * k))) mon_viol("C04", "generator-not-reproducible", "make_systematic_matrix(%d,%d) returned a different matrix when asked again", k, m);
+                  if (g2) fr(g2); if (g3) fr(g3); if (g4) fr(g4); mon_count("evaluations", 2); }
                 mon_distinct("nontrivial", mon_hash_u64((uint64_t)(k * 100 + m), 9));
                 /* MDS: every k-subset of rows invertible (library's own matrix, monitor's elimination) */
                 uint32_t gm[32 * 32]; for (int i = 0; i < n * k; i++) gm[i] = (uint32_t)g[i];
